@@ -7,6 +7,13 @@ BASE_NOTE = ("Trusted: Coq 8.16.1 kernel (no native_compute; vm_compute only in 
              "(Print Assumptions parsed every run; theorems at R would add the 3 stdlib real axioms); ExtrOcamlBasic extraction with Z/Q/Qc kept as datatypes + a Zarith I/O driver; "
              "the Python correspondence harness and its tolerances; JAX/NumPy primitives are modelled by contracts (rfftn/irfftn = DFT half-spectrum, scan = fold, exp). ")
 CLAIMED = {
+ "C11": dict(text="Theorems (complex numbers over any ordered field; the order laws are premises, satisfiable over Q): for real coefficients and real wavenumbers in any dimension the advection / "
+                  "dispersion symbols are purely imaginary, the order-2 / order-4 Laplace symbols are -sum kappa^2 / +sum kappa^4 (real), so diffusion and hyper-diffusion with non-negative "
+                  "coefficients have non-positive real part; a mode multiplied by E with |E|^2 <= 1 does not grow (equality for |E|^2 = 1); the Parseval-weighted sum over all modes is monotone; the "
+                  "real inverse transform contracts (|Re c| <= |c|); the wave stepper conserves |v|^2 + (c rho)^2 |h|^2 per mode. Symbols tied to the code by exact correspondence at every stored mode.",
+             note="|exp z| = exp(Re z) and Parseval with the half-spectrum weights are used, not proved here; full-matrix diffusion sign (kappa^T A kappa >= 0 for SPD A) is checked on the real code "
+                  "(white noise, strong off-diagonals, dt up to 1e6, every single mode), as are exact norm / wave-energy preservation.",
+             technique="Rocq proof (ordered-field reasoning on sums, complex modulus algebra) + exact symbol correspondence + norm oracle on the real code", design="§4 C11"),
  "C17": dict(text="Theorems: bin b collects exactly the modes with (2b-1)^2 <= 4|k|^2 < (2b+1)^2 (b = round|k|, half-open bins), bins are disjoint, every mode inside the Nyquist sphere lies in exactly one "
                   "bin 0..N/2 and modes outside in none (all N, D, k; integer square-root argument); 4|k|^2 is never an odd square, so the floating comparison cannot sit on a boundary; the amplitude "
                   "quantity of a stored mode of a cos is a and the power weights are the Parseval weights wgt|u_hat|^2/(2N^2D). Whole spectra (power/amplitude x sum/average, multi-channel) are "
